@@ -114,7 +114,7 @@ Norm(items) == IF Codec = "bytes" THEN Concat(items) ELSE items
 IsPrefix(a, b) == Len(a) <= Len(b) /\ a = SubSeq(b, 1, Len(a))
 Yielded == SelectSeq(out, LAMBDA x : x.k \notin {"none", "ioerr"})
 \* the items yielded up to and including None are exactly the whole-stream frames, whatever the script was
-C13_Frames == (done /\ out[Len(out)].k = "none") => (Norm(Yielded) = Norm(WholeStreamFrames(input)) /\ Len(Yielded) = Len(out) - 1)
+C13_Frames == (done /\ out # <<>> /\ out[Len(out)].k = "none") => (Norm(Yielded) = Norm(WholeStreamFrames(input)) /\ Len(Yielded) = Len(out) - 1)
 \* at any time: nothing lost, duplicated or reordered so far
 C13_Prefix == IsPrefix(Norm(Yielded), Norm(WholeStreamFrames(input)))
 \* None and I/O error items end the run: they appear only last
